@@ -83,7 +83,10 @@ def items(tier):
               "c(n/2,i) = c(n/2+1,i-1)", "c(m/2,i) = c((m-1)/2,i+1)", "c(i,n/2) = c(i-1,(n+1)/2)",
               "c(mod(n,2),i) = c(0,i-1)", "c(n-m,i) = c(0,i-1) + 1.0", "c(2*m,i) = c(m+m,i-1)",
               "c(1:3,i) = c(2:4,i-1) + 1.0", "c(1:3,i) = c(1:3,i) * 2.0", "c(0:2,i) = c(3:5,i-1)",
-              "c(i,1:3) = c(i-1,2:4)", "c(1:2,i) = c(3:4,i+1)", "c(0:1,i) = c(1:2,i)"]:
+              "c(i,1:3) = c(i-1,2:4)", "c(1:2,i) = c(3:4,i+1)", "c(0:1,i) = c(1:2,i)",
+              # one loop variable in several subscripts
+              "c(i,i) = c(i,i-1)", "c(i,i) = c(i-1,i-1) + 1.0", "c(i,i+1) = c(i+1,i)", "c(i,i) = c(i,i) * 2.0",
+              "c(i,i-1) = c(i-1,i)", "c(i,n-i) = c(i-1,n-i+1)", "c(i,2*i) = c(i,i)", "c(i/2,i) = c(i/2,i-1)"]:
         out.append((f"inv|{b}", prog(["do i = 1, n", "  " + b, "end do"])))
     # other bounds / steps
     for (lo, hi, st), b in itertools.product(
